@@ -4,7 +4,7 @@ EXTENDS KeyboardImplStages, TLC
 
 TheRec == ndJsonDeserialize(IOEnv.TRACE)
 TheComp == IOEnv.COMP
-VARIABLES fs, ss, es, kout, l, sid
+VARIABLES fs, ss, es, kout, l, sid, sync
 ImSName(x) == x
 ImAlive(f, s, e) == f # 0 /\ s # 0 /\ e # 0
 T == INSTANCE TraceKb WITH
